@@ -42,6 +42,16 @@ class ExcVal:
 _counter = itertools.count()
 
 
+_KEEP = []
+
+
+def tid(t):
+    """the z3 AST id of `t` as a dictionary key: the term is kept alive for the rest of the process, because z3 recycles
+    the ids of freed ASTs (a key built from a temporary could later collide with a different term)"""
+    _KEEP.append(t)
+    return t.get_id()
+
+
 def fresh_name(base):
     return f"{base}!{next(_counter)}"
 
